@@ -1,6 +1,7 @@
 package an
 
 import (
+	"os"
 	"fmt"
 	"go/constant"
 	"go/token"
@@ -687,6 +688,12 @@ func (pf *ParserFacts) appendGuards(callee *ssa.Function, dead map[*ssa.BasicBlo
 							}
 						}
 					}
+					if os.Getenv("VERIF_DEBUG") == "guard" {
+						fmt.Fprintf(os.Stderr, "APPENDGUARD %s elem=%s kinds=%v cut=%d accepted=%v\n", FuncName(callee), st.Val.String(), kinds, len(cut), accepted)
+						for _, a := range pf.atomsOn(callee, d) {
+							fmt.Fprintf(os.Stderr, "   atom %s at %s holdsOn=%d\n", a.kind, pf.W.Pos(a.ifi.Cond.Pos()), a.holdsOn)
+						}
+					}
 					if len(kinds) == 0 {
 						continue
 					}
@@ -730,7 +737,7 @@ func (pf *ParserFacts) appendGuards(callee *ssa.Function, dead map[*ssa.BasicBlo
 					}
 					for _, rb := range callee.Blocks {
 						ret, isRet := rb.Instrs[len(rb.Instrs)-1].(*ssa.Return)
-						if !isRet || isErrorReturn(ret) {
+						if !isRet || isErrorReturn(ret) || errorBranchReturn(ret) {
 							continue
 						}
 						if reachableFromWithout(b, cut, rb) {
@@ -830,51 +837,114 @@ func (pf *ParserFacts) listReq(s SlotStore, req string) slotVerdict {
 	acc := acceptedAtoms[req]
 	s2 := s
 	s2.List = true
-	var roots []ssa.Value
+	// every origin of the list must be covered: by a guard on the value or on the container it
+	// was taken from, by the function that produced it, or by being a list of synthesised nodes
+	var origins [][]ssa.Value
 	for _, o := range pf.origins(s.Val, map[ssa.Value]bool{}) {
 		if o.kind == "value" {
-			roots = append(roots, o.val, containerOf(o.val))
+			origins = append(origins, []ssa.Value{o.val, containerOf(o.val)})
 		}
 	}
-	if len(roots) == 0 {
+	if len(origins) == 0 {
 		return slotVerdict{req, true, true, "synthesised"}
 	}
-	var lastWhy string
-	for _, root := range roots {
-		if ok, why := pf.guardedBy(s2, root, acc...); ok {
-			return slotVerdict{req, true, false, why}
-		} else {
-			lastWhy = why
-		}
-		if ok, why := pf.producerGuard(root, acc...); ok {
-			return slotVerdict{req, true, false, why}
-		} else if why != "" {
-			lastWhy = why
-		}
-		// list literal built from synthesised nodes ([]Expression{node})
-		if sl, ok := root.(*ssa.Slice); ok {
-			if al, ok := sl.X.(*ssa.Alloc); ok {
-				allNodes := true
-				for _, r := range *al.Referrers() {
-					if ia, ok := r.(*ssa.IndexAddr); ok {
-						for _, rr := range *ia.Referrers() {
-							if st, ok := rr.(*ssa.Store); ok {
-								for _, o := range pf.origins(st.Val, map[ssa.Value]bool{}) {
-									if o.kind != "node" {
-										allNodes = false
+	var whys []string
+	nontrivial := false
+	for _, roots := range origins {
+		okO, whyO, trivO := false, "", false
+		for _, root := range roots {
+			if root == nil || okO {
+				continue
+			}
+			if ok, why := pf.guardedBy(s2, root, acc...); ok {
+				okO, whyO = true, why
+				break
+			} else if whyO == "" {
+				whyO = why
+			}
+			if ok, why := pf.producerGuard(root, acc...); ok {
+				okO, whyO = true, why
+				break
+			} else if why != "" {
+				whyO = why
+			}
+			// a list grown by append: judge what is appended
+			if ap, ok := root.(*ssa.Call); ok {
+				if bi, ok := ap.Call.Value.(*ssa.Builtin); ok && bi.Name() == "append" && len(ap.Call.Args) == 2 {
+					elems := variadicElems(ap.Call.Args[1])
+					all := len(elems) > 0
+					var ws []string
+					for _, e := range elems {
+						okE := false
+						// element made from the declared type of its counterpart (default values)
+						if ex, isEx := e.(*ssa.Extract); isEx {
+							e2 := ex.Tuple
+							if c2, isCall := e2.(*ssa.Call); isCall && c2.Call.StaticCallee() != nil && pf.W.IsProduct(pkgOf(c2.Call.StaticCallee())) {
+								for _, a := range c2.Call.Args {
+									if isNamed(a.Type(), "ValueType") {
+										okE = true
+										ws = append(ws, "element made from the declared type of its counterpart by "+c2.Call.StaticCallee().Name())
+									}
+								}
+							}
+						}
+						if !okE {
+							s3 := s
+							s3.List = false
+							if ok, why := pf.guardedBy(s3, e, acc...); ok {
+								okE = true
+								ws = append(ws, "appended element: "+why)
+							}
+						}
+						if !okE {
+							all = false
+						}
+					}
+					if all {
+						okO, whyO = true, strings.Join(uniq(ws), "; ")
+						break
+					}
+				}
+			}
+			// list literal built from synthesised nodes ([]Expression{node})
+			if sl, ok := root.(*ssa.Slice); ok {
+				if al, ok := sl.X.(*ssa.Alloc); ok {
+					allNodes := true
+					for _, r := range *al.Referrers() {
+						if ia, ok := r.(*ssa.IndexAddr); ok {
+							for _, rr := range *ia.Referrers() {
+								if st, ok := rr.(*ssa.Store); ok {
+									for _, o := range pf.origins(st.Val, map[ssa.Value]bool{}) {
+										if o.kind != "node" {
+											allNodes = false
+										}
 									}
 								}
 							}
 						}
 					}
-				}
-				if allNodes {
-					return slotVerdict{req, true, true, "literal list of nodes the parser synthesises (their slots are judged on their own)"}
+					if allNodes {
+						okO, whyO, trivO = true, "literal list of nodes the parser synthesises (their slots are judged on their own)", true
+					}
 				}
 			}
 		}
+		if !okO {
+			if os.Getenv("VERIF_DEBUG") == "listreq" {
+				for _, root := range roots {
+					if root != nil {
+						fmt.Fprintf(os.Stderr, "LISTREQ %s %s root=%s (%T) at %s\n", s.Key(), req, root.String(), root, pf.W.Pos(root.Pos()))
+					}
+				}
+			}
+			return slotVerdict{req, false, false, whyO}
+		}
+		if !trivO {
+			nontrivial = true
+		}
+		whys = append(whys, whyO)
 	}
-	return slotVerdict{req, false, false, lastWhy}
+	return slotVerdict{req, true, !nontrivial, strings.Join(uniq(whys), " | ")}
 }
 
 // ---- second line and target independence ---------------------------------------------------------
